@@ -24,9 +24,10 @@ import (
 type Case struct {
 	Cmd  string `json:"cmd"`  // command; "@wire" = raw bytes fed to FetchMessage
 	Pl   string `json:"pl"`   // payload, hex
-	Pre  string `json:"pre"`  // comma separated: nover | auth | cv2 (sendcmpct version 2 negotiated) | trusted | ahr | dupsid
+	Pre  string `json:"pre"`  // comma separated: nover | auth | cv2 (sendcmpct version 2 negotiated) | trusted | ahr | dupsid | ackgot | fulldb | fulldb-1 | fulldb+1
 	Note string `json:"note"` // where the case comes from
 	Seq  []Msg  `json:"seq,omitempty"` // messages delivered before (Cmd, Pl) on the same connection
+	Conc *ConcSpec `json:"conc,omitempty"` // Cmd "@conc": the concurrent scenario run in a child process (conc.go)
 }
 
 type Msg struct {
@@ -141,6 +142,9 @@ func (r *Runner) prepare(cs Case) *network.OneConnection {
 	if cs.has("auth") {
 		c.X.Authorized = true
 	}
+	if cs.has("ackgot") {
+		c.X.AuthAckGot = true // the peer's authack was accepted; no AES context (VerifReset dropped it)
+	}
 	if cs.has("cv2") {
 		c.Node.SendCmpctVer = 2
 	}
@@ -152,8 +156,8 @@ func (r *Runner) prepare(cs Case) *network.OneConnection {
 
 // call runs f with a recover and a time limit; it returns the panic text (with the first
 // interesting stack frame) and whether it hung.
-func call(limit time.Duration, f func()) (pan, where string, hang bool, dur time.Duration) {
-	done := make(chan struct{})
+func call(limit time.Duration, f func()) (pan, where string, hang bool, dur time.Duration, done chan struct{}) {
+	done = make(chan struct{})
 	t0 := time.Now()
 	go func() {
 		defer func() {
@@ -201,7 +205,20 @@ func (r *Runner) Do(cs Case) (o Obs) {
 		installDupSid()
 		defer removeDupSid()
 	}
-	pan, where, hang, dur := call(20*time.Second, func() {
+	limit := 20 * time.Second
+	switch {
+	case cs.has("fulldb"):
+		r.e.UseFullDB(0)
+	case cs.has("fulldb-1"):
+		r.e.UseFullDB(-1)
+	case cs.has("fulldb+1"):
+		r.e.UseFullDB(1)
+	}
+	if strings.Contains(cs.Pre, "fulldb") {
+		defer r.e.UseNormalDB()
+		limit = 3 * time.Second // the watchdog: a handler that waits for a lock it holds itself never returns
+	}
+	pan, where, hang, dur, done := call(limit, func() {
 		for _, m := range cs.Seq {
 			b, _ := hex.DecodeString(m.Pl)
 			c.VerifDispatch(m.Cmd, b, cs.has("trusted"))
@@ -238,6 +255,16 @@ func (r *Runner) Do(cs Case) (o Obs) {
 				p.free() // so that the run can go on
 			}
 		}
+	} else {
+		// the handler did not return within the watchdog limit: name the global locks that are held
+		// (a handler blocked on a lock it took itself shows up here). Nothing is released: the
+		// goroutine is still running, the caller stops the run.
+		for _, p := range r.probes {
+			if !p.try() {
+				o.Locks = append(o.Locks, p.name)
+			}
+		}
+		_ = done
 	}
 	sort.Strings(o.Locks)
 	if !abandon {
